@@ -288,3 +288,7 @@ pub fn replay(kind: &str, case: &J, rec: &mut Rec) -> Verdict {
         _ => Verdict::fail("infra:unknown-kind", kind),
     }
 }
+
+pub fn check_foreign_pub(text: &str, rec: &mut Rec) -> Verdict {
+    check_foreign(&ForeignDoc(text.to_string()), rec)
+}
